@@ -57,8 +57,10 @@ def run(ID, v, props):
     finally:
         sh(f'git -C {REPO} checkout -- .')
     meta=json.load(open(f'{dst}/meta.json')) if os.path.exists(f'{dst}/meta.json') else {}
+    allres=meta.get('quick_checks',{}); allres.update(res); res=allres
     meta['quick_checks']=res
-    meta['caught_by']=[p for p,v2 in res.items() if v2.startswith('CAUGHT')]
+    meta['caught_by']=sorted(p for p,v2 in res.items() if v2.startswith('CAUGHT'))
+    meta['evaluated_at_repo_commit']=sh(f'git -C {REPO} rev-parse --short HEAD').stdout.strip()
     json.dump(meta, open(f'{dst}/meta.json','w'), indent=1)
     print(ID, v, 'caught by', meta['caught_by'], '| target', ID, res.get(ID))
 if __name__=='__main__':
